@@ -379,7 +379,7 @@ class _Control:
                 self.out_of_grammar = True
                 h.r.probes['negative_completion_after_codeless_line'] += 1
             else:
-                self.reply(v + '.end', h.stape.choice((426, 451, 552, 450, 550), 'abort.code'), h.stape.choice(ABORT_TEXTS, 'abort.text'))
+                self.reply(v + '.end', h.stape.choice((426, 451, 552, 450, 550, 221, 225, 200), 'abort.code'), h.stape.choice(ABORT_TEXTS, 'abort.text'))      # (a positive reply other than 226/250 confirms nothing)
             h.r.probes['negative_completion'] += 1
             h.r.faults['ftp_negative_completion'] += 1
         elif mode == 'no_completion':
@@ -492,6 +492,8 @@ def execute(tape, r, fetches, user, pw, plan, files, seg_mode=None, vary_latency
                 try:
                     with client.session() as session:
                         session.event_dispatcher.add_listener(session.Event.control_send_data, sends.append)
+                        # what the session tells its listeners (the WARC recorder archives the transfer on this event)
+                        session.event_dispatcher.add_listener(session.Event.end_transfer, lambda *a, **k: out.__setitem__('end_transfer_announced', True))
                         if fx['kind'] == 'file':
                             yield from session.start(request)
                             yield from session.download(f)
@@ -582,6 +584,11 @@ def judge(r, fetches, outcomes, h, replies, sends, files, label=''):
             continue
         if not o.get('ok'):
             ts = [t for t in h.transfers if t['fetch'] == o['i']]
+            if o.get('end_transfer_announced') and ts and not (ts[-1]['eof'] and ts[-1]['ok226'] and ts[-1]['sent_all']):
+                # the fetch failed, yet the session announced the end of the transfer to its listeners (the WARC recorder writes
+                # the resource record on that event): a transfer reported complete that the server never confirmed
+                r.violate(P, 'incomplete-transfer-accepted', 'announced-to-listeners:' + ts[-1]['mode'],
+                          'fetch %d failed (%s) but end_transfer was announced for a transfer that was %r%s' % (o['i'], o.get('error'), ts[-1], label))
             if ts and ts[-1]['mode'] == 'slow' and all(t['mode'] in ('slow', 'normal') for t in h.transfers) and not any(k[0] in ('error', 'reply') for k in h.plan if isinstance(k, tuple)):
                 # nothing was wrong with this transfer: every read got data in time, the server closed and confirmed
                 r.violate(P, 'good-transfer-failed', 'slow', 'fetch %d: a slow but complete transfer (gaps below the timeout) was reported as failed: %s %s%s'
